@@ -7,12 +7,17 @@ _ATIME = re.compile(r"(meta:(?:file|dir):\d+:(?:none|auto|set:-?\d+):(?:none|aut
 
 
 def mask_phys_atime(case, step, optext, line):
-    """On a real disk the access time is the kernel's business (relatime): it is compared only in the
-    metadata() call that directly follows a set_access_time on the same case."""
+    """On a real disk the access time is the kernel's business (relatime) as soon as anything is opened or read: it is
+    compared in a metadata() call only while nothing but stat-like calls and time setters (metadata, exists,
+    set_*_time) has happened since the last set_access_time of the case."""
     if line is None or not getattr(case, "has_phys", False):
         return line
-    if optext.startswith("metadata ") and step > 0 and case.ops[step - 1].startswith("setatime "):
-        return line
+    if optext.startswith("metadata "):
+        k = step - 1
+        while k >= 0 and case.ops[k].split(" ")[0] in ("metadata", "exists", "setmtime", "setctime"):
+            k -= 1
+        if k >= 0 and case.ops[k].startswith("setatime "):
+            return line
     return _ATIME.sub(r"\1:*", line)
 
 
